@@ -1803,7 +1803,7 @@ class PseudoNetCDFFile(PseudoNetCDFSelfReg, object):
             else:
                 return time
         elif 'TFLAG' in self.variables.keys():
-            dates = self.variables['TFLAG'][:][:, 0, 0]
+            dates = self.variables['TFLAG'][:][:, 0, 0].copy()
             if (dates == -635).any():
                 warn('Dates of -635 set to 1970001')
                 dates[dates == -635] = 1970001
